@@ -140,6 +140,7 @@ func (p *parser) BasicParser(urlOrRef string, baseUrl *Url, url *Url, stateOverr
 	}
 
 	var buffer strings.Builder
+	var username, password strings.Builder
 	atFlag := false
 	bracketFlag := false
 	passwordTokenSeenFlag := false
@@ -338,6 +339,10 @@ func (p *parser) BasicParser(urlOrRef string, baseUrl *Url, url *Url, stateOverr
 					buffer.WriteString("%40")
 					buffer.WriteString(tmp)
 				}
+				if !atFlag {
+					username.WriteString(url.username)
+					password.WriteString(url.password)
+				}
 				atFlag = true
 				bb := newInputString(buffer.String())
 				c := bb.nextCodePoint()
@@ -349,12 +354,14 @@ func (p *parser) BasicParser(urlOrRef string, baseUrl *Url, url *Url, stateOverr
 					}
 					encodedCodePoints := p.percentEncodeRune(c, UserInfoPercentEncodeSet)
 					if passwordTokenSeenFlag {
-						url.password += encodedCodePoints
+						password.WriteString(encodedCodePoints)
 					} else {
-						url.username += encodedCodePoints
+						username.WriteString(encodedCodePoints)
 					}
 					c = bb.nextCodePoint()
 				}
+				url.username = username.String()
+				url.password = password.String()
 				buffer.Reset()
 			} else if (input.eof || r == '/' || r == '?' || r == '#') || url.isSpecialSchemeAndBackslash(r) {
 				if atFlag && buffer.Len() == 0 {
